@@ -56,6 +56,8 @@ pub fn templates() -> Vec<Template> {
         t("check/body-nested", "check", "check if q([{a}])", &["a"], &[], &[]),
         t("check/expression", "check", "check if q($x), $x == {a}", &["a"], &[], &[]),
         t("check/closure", "check", "check if q($x), $x.any($p -> $p == {a})", &["a"], &[], &[]),
+        t("check/closure-argument-named-like-the-parameter", "check", "check if q($x), $x.any($a -> $a == {a})", &["a"], &[], &[]),
+        t("rule/nested-closure-arguments-named-like-the-parameters", "rule", "r($x) <- q($x), [1].all($a -> [2].any($b -> $b == {a} || $a == {b}))", &["a", "b"], &[], &[]),
         t("check/two-alternatives-same-param", "check", "check if q({a}) or r({a}, {b})", &["a", "b"], &[], &[]),
         t("check/all-expression-literal", "check", "check all q($x), {{a}}.contains($x)", &["a"], &[], &[]),
         t("check/reject-scope", "check", "reject if q($x) trusting {k}", &[], &["k"], &[]),
